@@ -23,6 +23,7 @@ from pams.order import LIMIT_ORDER, MARKET_ORDER, Cancel, Order  # noqa: E402
 from pams.simulator import Simulator  # noqa: E402
 
 DEN = 2                 # units per tick in recorded runs
+FDEN = 1024             # fundamentals / index values are logged in 1/FDEN of a tick (exact runs)
 CASH_UNIT = 2.0 ** -7   # cash is logged in multiples of this (exact runs)
 
 
@@ -79,6 +80,40 @@ class Recorder:
                 raise MachineryError("cash %r not projectable" % (x,))
             return int(k)
         return 0
+
+    def fine(self, market_id, x):
+        """value in 1/FDEN of the market's tick, -1 if not exactly representable (exact runs only)"""
+        if not self.exact or x is None:
+            return -1
+        t = self.units[market_id].tick / FDEN
+        k = round(x / t)
+        if k * t != x or abs(k) >= 2 ** 30:
+            return -1
+        return int(k)
+
+    def market_view(self):
+        sim = self.sim
+        d = {"funds": [self.fine(m.market_id, m.get_fundamental_price()) for m in sim.markets],
+             "mkts": [self.fine(m.market_id, m.get_market_price()) for m in sim.markets],
+             "runs": [bool(m.is_running) for m in sim.markets]}
+        idxv, iok = [], []
+        for m in sim.markets:
+            if isinstance(m, IndexMarket):
+                v = m.get_index()
+                comps = m.get_components()
+                num = sum(c.get_market_price() * c.outstanding_shares for c in comps)
+                den = sum(c.outstanding_shares for c in comps)
+                ok = abs(v - num / den) <= 1e-12 * max(1.0, abs(v)) and m.get_market_index() == v
+                fv = m.get_fundamental_price()
+                fnum = sum(c.get_fundamental_price() * c.outstanding_shares for c in comps)
+                idxv.append(self.fine(m.market_id, v))
+                iok.append(bool(ok))
+            else:
+                idxv.append(-1)
+                iok.append(True)
+        d["idxv"] = idxv
+        d["iok"] = iok
+        return d
 
     def holdings(self):
         out = []
@@ -184,13 +219,14 @@ class RecLogger(Logger):
         m, s = log.market, log.session
         REC.emit("stepB", s=s.session_id, m=m.market_id, t=m.get_time(), exec=bool(s.with_order_execution),
                  place=bool(s.with_order_placement), run=bool(m.is_running),
-                 clocks=[x.get_time() for x in REC.sim.markets])
+                 clocks=[x.get_time() for x in REC.sim.markets], **REC.market_view())
 
     def process_market_step_end_log(self, log):
         REC.flush_quiet()
         m, s = log.market, log.session
         REC.emit("stepE", s=s.session_id, m=m.market_id, t=m.get_time(), exec=bool(s.with_order_execution),
-                 run=bool(m.is_running), clocks=[x.get_time() for x in REC.sim.markets], hold=REC.holdings())
+                 run=bool(m.is_running), clocks=[x.get_time() for x in REC.sim.markets], hold=REC.holdings(),
+                 **REC.market_view())
 
     def process_session_begin_log(self, log):
         s = log.session
@@ -265,6 +301,7 @@ class ProbeMarketMixin:
         obj = REC.obj(order)
         if self.time >= 0:
             self._sync_running()
+        mp_before = self.get_market_price() if self.time >= 0 else None
         try:
             log = super()._add_order(order)
         except Exception as ex:  # noqa: BLE001
@@ -286,6 +323,8 @@ class ProbeMarketMixin:
         REC.emit("acc", m=self.market_id, id=int(order.order_id), a=int(order.agent_id), obj=obj, buy=bool(order.is_buy),
                  mo=mo, px=px, vol=int(order.volume), ttl=int(order.ttl or 0), t=int(order.placed_at), req=rq,
                  tm=int(self.time), run=bool(self.is_running),
+                 mp=REC.fine(self.market_id, mp_before), p0=REC.fine(self.market_id, self.get_market_price(0)),
+                 rqf=-1 if (mo or req is None) else REC.fine(self.market_id, req),
                  lf=[int(log.time), int(log.agent_id), bool(log.is_buy), log.kind == MARKET_ORDER, _soft(u.u, log.price),
                      int(log.volume), int(log.ttl or 0)])
         self._bev({"k": "sub", "obj": obj, "ag": int(order.agent_id), "buy": bool(order.is_buy), "mo": mo,
@@ -366,9 +405,18 @@ class ProbeSimulator(Simulator):
         REC.emit("tickAllB", clocks=[m.get_time() for m in self.markets])
         super()._update_times_on_markets(markets)
         ev = {"clocks": [m.get_time() for m in self.markets]}
-        if REC.exact:
-            ev["funds"] = [max(_soft(REC.U(m.market_id).u, m.get_fundamental_price()), 0) for m in self.markets]
-            ev["mkts"] = [max(_soft(REC.U(m.market_id).u, m.get_market_price()), 0) for m in self.markets]
+        ev.update(REC.market_view())
+        fok = []
+        for m in self.markets:
+            if isinstance(m, IndexMarket):
+                comps = m.get_components()
+                fnum = sum(c.get_fundamental_price() * c.outstanding_shares for c in comps)
+                den = sum(c.outstanding_shares for c in comps)
+                fv = m.get_fundamental_price()
+                fok.append(bool(abs(fv - fnum / den) <= 1e-12 * max(1.0, abs(fv))))
+            else:
+                fok.append(True)
+        ev["fok"] = fok
         REC.emit("tickAll", **ev)
 
     def _update_agents_for_execution(self, execution_logs):
@@ -448,7 +496,11 @@ class ScriptMixin:
             mo = r.random() < p["pMarket"]
             tick = m.tick_size
             base = m.get_market_price()
-            lvl = math.floor(base / tick) + r.randint(-p["spread"], p["spread"])
+            if p.get("absBase"):
+                # prices around a fixed level (events scenarios: far outside / on the edge of / inside a band)
+                lvl = int(p["absBase"][m.market_id] if isinstance(p["absBase"], list) else p["absBase"]) + r.randint(-p["spread"], p["spread"])
+            else:
+                lvl = math.floor(base / tick) + r.randint(-p["spread"], p["spread"])
             px = max(1, lvl) * tick
             if r.random() < p["pOff"]:
                 px += tick / 2
